@@ -8,7 +8,7 @@
     interval + d <= factor * interval. *)
 From Coq Require Import List ZArith Bool Lia.
 From CM Require Import Lib.Str Lib.SafeSteps Gen.Consts Safe.Model Safe.KeysProofs.
-From CM Require Import FileLock.Model FileLock.Check FileLock.Proofs FileLock.Refuted.
+From CM Require Import FileLock.Model FileLock.Check FileLock.Proofs FileLock.Refuted FileLock.Extra.
 Import ListNotations.
 Open Scope Z_scope.
 
@@ -431,3 +431,195 @@ Example C08_undecodable_hypotheses_satisfiable :
   exists s, run (cfg_repo d2) (init_state (Some FGarbage) (-1) (-30000000000)) [LStart 0 0; LTryCreate 0]%nat = Some s /\
     file s = Some 0%nat /\ content s 0%nat = FGarbage /\ cs s 0%nat = CExists 0.
 Proof. eexists. split; [vm_compute; reflexivity|]. repeat split. Qed.
+
+
+(** ** theorems added in the last round (proofs in FileLock/Extra.v) *)
+
+(** The context passed to Lock bounds the acquisition only: its end is noticed by a sleeping Lock
+    call alone, is no step at all of a thread that holds (or has created) the lock, and - whatever
+    contexts end - a held lock file is kept fresh by its heartbeat. *)
+Theorem C08_cancel_affects_only_the_waiting_call : forall c s t s', step c s (LCancel t) = Some s' ->
+  (exists ec u, cs s t = CSleep ec u) /\ cs s' t = CFailed ErrCtx /\
+  hb s' = hb s /\ file s' = file s /\ content s' = content s /\ mtime s' = mtime s /\ now s' = now s /\
+  forall t', t' <> t -> cs s' t' = cs s t'.
+Proof. exact cancel_affects_only_the_waiting_call. Qed.
+Print Assumptions C08_cancel_affects_only_the_waiting_call.
+
+Theorem C08_ended_context_is_no_step_of_a_holder : forall c s t i, owner s t i -> step c s (LCancel t) = None.
+Proof. exact ended_context_is_no_step_of_a_holder. Qed.
+Print Assumptions C08_ended_context_is_no_step_of_a_holder.
+
+Theorem C08_held_lock_is_kept_fresh : forall d, H_live d -> forall s t i,
+  reach (cfg_repo d) (live_ok (cfg_repo d)) init s -> cs s t = CHolding i ->
+  file s = Some i /\
+  ((exists p cr due u, hb s i = HSleep p cr due /\ content s i = FMeta (Some cr) (Some u) /\
+                       due = u + interval (cfg_repo d) /\ now s <= due + delta (cfg_repo d) /\
+                       is_stale (cfg_repo d) (now s) (Some cr) (Some u) = false) \/
+   (exists p cr sn, hb s i = HTrunc p cr i (Some cr) sn /\ content s i = FEmpty)).
+Proof. intros d Hd. exact (held_lock_is_kept_fresh (cfg_repo d) (repo_checks d) (repo_guard d) (repo_good d Hd)). Qed.
+Print Assumptions C08_held_lock_is_kept_fresh.
+
+(** A lock file left by a creator that died between its O_EXCL create and its metadata write is
+    obtainable once factor * interval has passed since the create, whoever else is alive. *)
+Theorem C08_dead_creator_lock_obtainable : forall d, H_live d -> forall s0 t ec0 i s ls s' w ec,
+  reach (cfg_repo d) any_label init s0 ->
+  cs s0 t = CCreated ec0 i -> file s0 = Some i ->
+  step (cfg_repo d) s0 (LKill (cproc s0 t)) = Some s ->
+  run (cfg_repo d) s ls = Some s' -> file s' = Some i ->
+  cs s' w = CExists ec -> (retries (cfg_repo d) <= S ec)%nat ->
+  lock_stale_factor * lock_freshness_interval < now s' - mtime s0 i ->
+  content s' i = FEmpty /\ mtime s' i = mtime s0 i /\
+  exists s3, run (cfg_repo d) s' [LOpenRead w; LRemove w; LTryCreate w] = Some s3 /\
+             cs s3 w = CCreated (S ec) (nexti s') /\ file s3 = Some (nexti s') /\ now s3 = now s'.
+Proof.
+  intros d Hd s0 t ec0 i s ls s' w ec R.
+  apply (dead_creator_lock_obtainable (cfg_repo d) (repo_checks d) (repo_good d Hd)).
+  exact (HBInv_reach (cfg_repo d) (repo_checks d) (repo_good d Hd) any_label s0 R).
+Qed.
+Print Assumptions C08_dead_creator_lock_obtainable.
+
+(** ... and nobody else's heartbeat adopts such a file (or any file it cannot decode), and a
+    heartbeat only ever writes its own file. *)
+Theorem C08_heartbeat_gives_up_on_undecodable_file : forall c s i p cr due j,
+  hb s i = HSleep p cr due -> due <= now s -> file s = Some j ->
+  content s j = FEmpty \/ content s j = FGarbage ->
+  exists s', step c s (LHbWake i) = Some s' /\ hb s' i = HDone /\
+             content s' = content s /\ mtime s' = mtime s /\ file s' = file s /\ cs s' = cs s.
+Proof. exact heartbeat_gives_up_on_undecodable_file. Qed.
+Print Assumptions C08_heartbeat_gives_up_on_undecodable_file.
+
+Theorem C08_heartbeat_writes_only_its_own_file : forall d, H_live d -> forall ok s i p cr j fcr sn,
+  reach (cfg_repo d) ok init s -> hb s i = HTrunc p cr j fcr sn -> j = i /\ fcr = Some cr.
+Proof. intros d Hd. exact (heartbeat_writes_only_its_own_file (cfg_repo d) (repo_checks d) (repo_good d Hd)). Qed.
+Print Assumptions C08_heartbeat_writes_only_its_own_file.
+
+(** Two names share a lock file exactly when their Safe images are equal (nothing else - no cut,
+    no hash - stands between a name and its file). *)
+Theorem C08_names_share_lock_file_iff : forall lower is_space,
+  (forall c, is_upper_ascii (lower c) = false) ->
+  forall root n1 n2, good_str root = true ->
+  (lock_filename lower is_space root n1 = lock_filename lower is_space root n2 <->
+   safe lower is_space n1 = safe lower is_space n2).
+Proof. exact names_share_lock_file_iff. Qed.
+Print Assumptions C08_names_share_lock_file_iff.
+
+(** What the monitors of the correspondence check, as statements about the observation. *)
+Theorem C08_mutex_monitor_sound : forall c, mutex_ok c = true ->
+  forall t1 a1 e1 t2 a2 e2, In (t1, a1, e1) (holds_of c) -> In (t2, a2, e2) (holds_of c) ->
+  t1 = t2 \/ e1 <= a2 + clock_slack \/ e2 <= a1 + clock_slack.
+Proof. exact mutex_ok_sound. Qed.
+Print Assumptions C08_mutex_monitor_sound.
+
+Theorem C08_recovery_monitor_sound : forall c from to, recovered_by c from to = true ->
+  (exists o, In o (cobs c) /\ oout o = 0 /\ from < otime o <= to) \/
+  (forall o st, In o (cobs c) -> first_time (cevents c) 0 (otid o) = Some st -> st <= from + 2000000000 ->
+     not_killed c o = true ->
+     ~ ((oout o = 2 \/ oout o = 3) /\ from <= otime o) /\
+     ~ (persistent_waiter c from to o = true /\ to < chorizon c)).
+Proof. exact recovered_by_sound. Qed.
+Print Assumptions C08_recovery_monitor_sound.
+
+Theorem C08_names_monitor_sound : forall c, names_spec_ok c = true -> names_model_agrees c = true ->
+  forall t, In t (nthreads c) ->
+    model_lock_file (nroot c) (nname t) = nfile t /\
+    (count_name c (nname t) = 1%nat -> nout t = 0 /\ nret t - nstart t <= nprompt c).
+Proof.
+  intros c H1 H2 t Ht. split; [exact (names_model_agrees_sound c H2 t Ht) | exact (names_spec_ok_sound c H1 t Ht)].
+Qed.
+Print Assumptions C08_names_monitor_sound.
+
+Theorem C08_cancel_monitor_sound : forall c, cancel_ok c = true ->
+  forall e o, In e (cevents c) -> ekind e = 3 ->
+    find (fun o => otid o =? ea e) (cobs c) = Some o ->
+    first_time (cevents c) 2 (pid_of (cevents c) (otid o)) = None ->
+    oout o <> -1 /\ otime o <= etime e + cancel_bound.
+Proof. exact cancel_ok_sound. Qed.
+Print Assumptions C08_cancel_monitor_sound.
+
+(** the hypotheses of [C08_dead_creator_lock_obtainable] are met: the creator of
+    [C08_empty_recovery_hypotheses_satisfiable] is killed; the waiter reads the empty file eight
+    times, 250 ms apart, and is about to read it again 10 s later *)
+Definition demo_dead_creator_wait : list label :=
+  [LOpenRead 1]%nat ++
+  flat_map (fun _ => [LTick lock_empty_sleep; LWake 1; LTryCreate 1; LOpenRead 1]%nat) (seq 0 6) ++
+  [LTick (lock_stale_factor * lock_freshness_interval); LWake 1; LTryCreate 1]%nat.
+Example C08_dead_creator_hypotheses_satisfiable :
+  exists s0 s s', reach_run (cfg_repo d2) (fun _ _ => true) init demo_creator = Some s0 /\
+    cs s0 0%nat = CCreated 0 0%nat /\ file s0 = Some 0%nat /\
+    step (cfg_repo d2) s0 (LKill (cproc s0 0%nat)) = Some s /\
+    run (cfg_repo d2) s demo_dead_creator_wait = Some s' /\ file s' = Some 0%nat /\
+    cs s' 1%nat = CExists 7 /\ (retries (cfg_repo d2) <= 8)%nat /\
+    lock_stale_factor * lock_freshness_interval < now s' - mtime s0 0%nat.
+Proof.
+  eexists. eexists. eexists.
+  split; [vm_compute; reflexivity|].
+  split; [vm_compute; reflexivity|].
+  split; [vm_compute; reflexivity|].
+  split; [vm_compute; reflexivity|].
+  split; [vm_compute; reflexivity|].
+  split; [vm_compute; reflexivity|].
+  split; [vm_compute; reflexivity|].
+  split; [vm_compute; lia | vm_compute; reflexivity].
+Qed.
+
+(** Lock files without a live owner, in ANY state (the pre-made files of dead holders of the
+    decision table): stale by its timestamps => obtained by four own steps; empty or undecodable
+    and not modified for factor * interval => obtained by three own steps once the retries are
+    used up; younger => the waiter only sleeps the empty-retry time, it neither removes the file
+    nor fails. *)
+Theorem C08_stale_file_obtainable : forall c s i cr u w ec, file s = Some i -> content s i = FMeta cr u ->
+  is_stale c (now s) cr u = true -> cs s w = CTry ec ->
+  exists s4 ec', run c s [LTryCreate w; LOpenRead w; LRemove w; LTryCreate w] = Some s4 /\
+                 cs s4 w = CCreated ec' (nexti s) /\ file s4 = Some (nexti s) /\ now s4 = now s.
+Proof. exact stale_obtainable. Qed.
+Print Assumptions C08_stale_file_obtainable.
+
+Theorem C08_old_unreadable_file_obtainable : forall d s i w ec,
+  file s = Some i -> content s i = FEmpty \/ content s i = FGarbage ->
+  cs s w = CExists ec -> (retries (cfg_repo d) <= S ec)%nat ->
+  lock_stale_factor * lock_freshness_interval < now s - mtime s i ->
+  exists s3, run (cfg_repo d) s [LOpenRead w; LRemove w; LTryCreate w] = Some s3 /\
+             cs s3 w = CCreated (S ec) (nexti s) /\ file s3 = Some (nexti s) /\ now s3 = now s.
+Proof. intros d s i w ec. exact (old_unreadable_file_obtainable (cfg_repo d) s i w ec eq_refl). Qed.
+Print Assumptions C08_old_unreadable_file_obtainable.
+
+Theorem C08_young_unreadable_file_waited_for : forall d s i w ec,
+  file s = Some i -> content s i = FEmpty \/ content s i = FGarbage -> cs s w = CExists ec ->
+  (S ec < retries (cfg_repo d))%nat \/ now s - mtime s i <= lock_stale_factor * lock_freshness_interval ->
+  exists s1, step (cfg_repo d) s (LOpenRead w) = Some s1 /\
+             cs s1 w = CSleep (S ec) (now s + esleep (cfg_repo d)) /\ file s1 = file s.
+Proof. intros d s i w ec. exact (young_unreadable_file_waited_for (cfg_repo d) s i w ec eq_refl eq_refl). Qed.
+Print Assumptions C08_young_unreadable_file_waited_for.
+
+Theorem C08_free_lock_monitor_sound : forall c, free_ok c = true -> cinit c = None ->
+  existsb (fun e => (ekind e =? 2) || (ekind e =? 4) || (ekind e =? 6)) (cevents c) = false ->
+  forall o st, In o (cobs c) -> first_time (cevents c) 0 (otid o) = Some st -> free_for c o st = true ->
+  oout o = 0 /\ otime o - st <= free_prompt.
+Proof. exact free_ok_sound. Qed.
+Print Assumptions C08_free_lock_monitor_sound.
+
+(** the hypotheses of [C08_old_unreadable_file_obtainable] are met: a pre-made garbage file last
+    modified 30 s ago, a waiter that has read it seven times and is about to read it again *)
+Definition demo_garbage_wait : list label :=
+  [LStart 0 0; LTryCreate 0; LOpenRead 0]%nat ++
+  flat_map (fun _ => [LTick lock_empty_sleep; LWake 0; LTryCreate 0; LOpenRead 0]%nat) (seq 0 6) ++
+  [LTick lock_empty_sleep; LWake 0; LTryCreate 0]%nat.
+Example C08_old_unreadable_hypotheses_satisfiable :
+  exists s, run (cfg_repo d2) (init_state (Some FGarbage) (-1) (-30000000000)) demo_garbage_wait = Some s /\
+    file s = Some 0%nat /\ content s 0%nat = FGarbage /\ cs s 0%nat = CExists 7 /\
+    (retries (cfg_repo d2) <= 8)%nat /\
+    lock_stale_factor * lock_freshness_interval < now s - mtime s 0%nat.
+Proof.
+  eexists. split; [vm_compute; reflexivity|].
+  split; [reflexivity|]. split; [reflexivity|]. split; [reflexivity|].
+  split; [vm_compute; lia | vm_compute; reflexivity].
+Qed.
+
+(** What the correspondence compares with the implementation - the simulator's run of a scenario -
+    is a run of the LTS the theorems above quantify over: every simulator step is a (possibly
+    empty) sequence of LTS steps, for every scenario without a creator that crashed in the middle
+    of its write (that content patch is outside the LTS by design). *)
+Theorem C08_simulation_is_an_LTS_run : forall c fuel horizon m, no_garbage_crash (script m) ->
+  exists ls, run c (sst m) ls = Some (sst (simulate c fuel horizon m)).
+Proof. intros c fuel. exact (simulate_refines_lts c fuel). Qed.
+Print Assumptions C08_simulation_is_an_LTS_run.
